@@ -24,7 +24,7 @@ ASSUMPTIONS = ["thread interleavings are steered by phases, a latch and jitter, 
 
 
 def examples(tier):
-    return 500 if tier == "quick" else 8000
+    return 1200 if tier == "quick" else 12000
 
 
 def budget_s(tier):
